@@ -88,6 +88,22 @@ TWINS = [
     ("mlp-mean-bias-grad-by-batch", "gemclus/mlp/_mlp_geminis.py",
      [("        b2_grad = tau_hat_grad.sum(0, keepdims=True)", "        b2_grad = tau_hat_grad.mean(0, keepdims=True) * len(tau_hat_grad)")]),
     ("douglas-divide-by-param", "gemclus/tree/douglas.py", [("            bin_grad /= self.temperature\n", "            bin_grad = bin_grad / self.temperature\n")]),
+    ("labels-np-argmax", "gemclus/_base_gemini.py", [("        self.labels_ = self._infer(X).argmax(1)", "        self.labels_ = np.argmax(self._infer(X), axis=1)")]),
+    ("predict-method-argmax", "gemclus/_base_gemini.py", [("        return np.argmax(self.predict_proba(X), axis=1)", "        return self.predict_proba(X).argmax(1)")]),
+    ("epoch-loop-underscore", "gemclus/_base_gemini.py", [("        for i in range(self.max_iter):", "        for _epoch in range(self.max_iter):")]),
+    ("batchify-rename-perm", "gemclus/_base_gemini.py", [("all_indices", "perm")]),
+    ("kauri-counter-assign", "gemclus/tree/kauri.py", [("                n_leaves += 1\n", "                n_leaves = n_leaves + 1\n")]),
+    ("kauri-labels-np-argmax", "gemclus/tree/kauri.py", [("        self.labels_ = (Y @ Z).argmax(0)", "        self.labels_ = np.argmax(Y @ Z, axis=0)")]),
+    ("tree-predict-logical-not", "gemclus/tree/kauri.py", [("            X_right = ~X_left", "            X_right = np.logical_not(X_left)")]),
+    ("path-history-plus-equal", "gemclus/sparse/_base_sparse.py", [("        alphas.append(alpha)\n", "        alphas += [alpha]\n")]),
+    ("mlcl-indices-list", "gemclus/mlcl.py", [("                disguise_batch.indices = subset.tolist()", "                disguise_batch.indices = list(subset)")]),
+    ("gstm-concatenate", "gemclus/data/synthetic_data.py", [("    X = np.vstack([X_gaussian, X_student])", "    X = np.concatenate([X_gaussian, X_student], axis=0)")]),
+    ("douglas-infer-comprehension", "gemclus/tree/douglas.py",
+     [("        cut_iterator = map(leaf_binning, self.cut_points_list_)\n        all_binnings_results = list(cut_iterator)", "        all_binnings_results = [leaf_binning(z) for z in self.cut_points_list_]")]),
+    ("kauri-max-depth-alias", "gemclus/tree/kauri.py", [("        max_depth = len(X) if self.max_depth is None else self.max_depth", "        max_depth = n if self.max_depth is None else self.max_depth")]),
+    ("fit-affinity-block-ix", "gemclus/_base_gemini.py", [("                affinity_batch = affinity_matrix[batch_indices][:, batch_indices]", "                affinity_batch = affinity_matrix[np.ix_(batch_indices, batch_indices)]")]),
+    ("linear-infer-inline", "gemclus/linear/_linear_geminis.py", [("        H = X @ self.W_ + self.b_\n        return softmax(H)", "        return softmax(X @ self.W_ + self.b_)")]),
+    ("sparse-selection-flatnonzero", "gemclus/sparse/_mlp_sparse.py", [("        return np.nonzero(np.linalg.norm(self.W_skip_, axis=1, ord=2))[0]", "        return np.flatnonzero(np.linalg.norm(self.W_skip_, axis=1, ord=2))")]),
     ("get-gemini-local", "gemclus/mlp/_mlp_geminis.py",
      [("        return MMDGEMINI(ovo=self.ovo, kernel=self.kernel, kernel_params=self.kernel_params)", "        return MMDGEMINI(kernel=self.kernel, ovo=self.ovo, kernel_params=self.kernel_params)")]),
 ]
